@@ -22,6 +22,7 @@ type Config struct {
 	Yields    int    `json:"yields,omitempty"`     // enabled yield kinds (bit mask)
 	LoadSlow  int    `json:"load_slow,omitempty"`  // extra yields inside the loader
 	Faults    bool   `json:"faults"`               // false: fault-free stratum
+	NS        bool   `json:"ns,omitempty"`         // compile with CompileWithNS({x: urn:x, y: urn:y}) instead of Compile
 }
 
 // ExprSpec is one expression of a scenario.
@@ -96,7 +97,7 @@ func genDocs(r *Rng, maxNodes int) []DocSpec {
 }
 
 func baseCfg(r *Rng) Config {
-	c := Config{CacheCap: -1, PoolMode: r.Intn(2), Faults: !r.Chance(1, 4)}
+	c := Config{CacheCap: -1, PoolMode: r.Intn(2), Faults: !r.Chance(1, 4), NS: r.Chance(1, 5)}
 	if r.Chance(1, 3) {
 		c.CacheCap = []int{0, 1, 2, 3, 5}[r.Intn(5)]
 	}
